@@ -178,7 +178,16 @@ func (m *Mon) stepC02(sc *StepCtx, si stepInfo) {
 	case si.withdraw != nil:
 		paid := new(big.Int).Neg(dEarn)
 		m.hit("C02", "R5-withdraw", "paid"+sgn(sdk.NewIntFromBigInt(paid)))
-		if !eqInt(dEsc, dEarn) || dFc.Sign() != 0 {
+		// (an owner may have named the fee collector's address as its wallet)
+		wallet := hexs(si.withdraw.Owner)
+		if a, ok := pre.Withdraw[wallet]; ok {
+			wallet = a
+		}
+		wantFc := new(big.Int)
+		if wallet == fc {
+			wantFc = paid
+		}
+		if !eqInt(dEsc, dEarn) || !eqInt(dFc, wantFc) {
 			m.fail(sc, "C02", "R5-withdraw", "", "withdrawal: escrow moved by %s but earnings by %s (fee collector %s)", dEsc, dEarn, dFc)
 		}
 		m.samePending(sc, cls)
@@ -496,7 +505,7 @@ func (m *Mon) stepC05(sc *StepCtx, si stepInfo) {
 				}
 			}
 			// the service name is reserved by the module double for the life of the keeper
-			rightful = (!owned || o == signer) && mm.ServiceName != modSvcName
+			rightful = (!owned || o == signer) && mm.ServiceName != modSvcName && mm.ServiceName != modSvcName2
 			why = "provider unowned or own, service not module-reserved"
 		}
 		sit := fmt.Sprintf("%s/known%v/rightful%v/%s", sc.Step.MsgType, known, rightful, okStr(sc.Res))
